@@ -118,8 +118,8 @@ func (c *caseCtx) witness(extra map[string]any) map[string]any {
 	out := map[string]any{
 		"scheme": w.kind, "case": c.id, "nKeys": w.n, "keyPoolIndices": w.pool,
 		"pubKeys": keys, "pubKeyHash": w.hash, "messages": msgs,
-		"note":          "keys: simple = ed25519.NewKeyFromSeed(sha256(\"verif-c13-ed25519-<poolIdx>\")); bls = gblsminsig.NewSigner(sha256(\"verif-c13-bls-<poolIdx>\")). Operations are listed in execution order; the last one is the failing one. target/source are pool slots; every pool proof is over messages[0] unless stated.",
-		"operations":    ops,
+		"note":           "keys: simple = ed25519.NewKeyFromSeed(sha256(\"verif-c13-ed25519-<poolIdx>\")); bls = gblsminsig.NewSigner(sha256(\"verif-c13-bls-<poolIdx>\")). Operations are listed in execution order; the last one is the failing one. target/source are pool slots; every pool proof is over messages[0] unless stated.",
+		"operations":     ops,
 		"modelsBeforeOp": models,
 	}
 	for k, v := range extra {
@@ -1011,11 +1011,47 @@ func runScheme(t *testing.T, kind string, maxN, quick, thorough int, rule string
 			blsInit()
 		} else {
 			edInit()
+			keyIDCheckerExactness(r)
 		}
 		r.Parallel(n, func(i int) { runCase(r, kind, i, maxN, tt) })
 	}
 	for _, k := range verifkit.SortedKeys(tt.stats) {
 		r.Count(k, tt.stats[k])
+	}
+}
+
+// keyIDCheckerExactness: for the simple scheme a key id is valid iff it is the 2-byte
+// big-endian index of one of the keys, for every key count including none.
+func keyIDCheckerExactness(r *verifkit.Run) {
+	sch := gcrypto.SimpleCommonMessageSignatureProofScheme{}
+	pool := make([]gcrypto.PubKey, 40)
+	for i := range pool {
+		var b [32]byte
+		b[0], b[1] = byte(i), 0x77
+		pool[i] = gcrypto.Ed25519PubKey(b[:])
+	}
+	for n := 0; n <= len(pool); n++ {
+		var chk gcrypto.KeyIDChecker
+		if p, key, msg, _ := verifkit.Guard(func() { chk = sch.KeyIDChecker(pool[:n]) }); p {
+			r.Violate(key, "KeyIDChecker panicked: "+msg, fmt.Sprintf("keyidchecker:%d", n), nil)
+			continue
+		}
+		for _, id := range []int{0, 1, n - 1, n, n + 1, 255, 256, 65535} {
+			if id < 0 {
+				continue
+			}
+			kid := []byte{byte(id >> 8), byte(id)}
+			got := chk.IsValid(kid)
+			if want := id < n; got != want {
+				r.Violate("C13:keyidchecker-wrong-for-key-count:simple", fmt.Sprintf("KeyIDChecker over %d keys: IsValid(%x) = %v, want %v", n, kid, got, want), fmt.Sprintf("keyidchecker:%d", n), map[string]any{"keys": n, "key_id": id})
+			}
+			r.Eval(1)
+		}
+		for _, kid := range [][]byte{nil, {}, {0}, {0, 0, 0}} {
+			if chk.IsValid(kid) {
+				r.Violate("C13:keyidchecker-accepts-wrong-length-id:simple", fmt.Sprintf("KeyIDChecker over %d keys accepts the %d-byte id %x", n, len(kid), kid), fmt.Sprintf("keyidchecker:%d", n), nil)
+			}
+		}
 	}
 }
 
